@@ -3,6 +3,7 @@
 #include "common.h"
 #include "fiber_manager.h"
 #include "fiber_signal.h"
+#include <unistd.h>
 
 const char* const H_NAME = "c20_msignal";
 const char* const H_PROPERTY = "C20";
@@ -36,8 +37,35 @@ static int try_claim(void) {
     if (atomic_compare_exchange_weak(&consumed, &c, c + 1)) return 1;
   return 0;
 }
+/* optionally waiter 0 first goes through another suspension mechanism: it blocks in read() on a pipe whose read
+ * end a helper fiber closes under it (the mechanisms share the fiber's scratch word) */
+static int pre_fd_wait, fdw_fd[2];
+static volatile int fdw_in, fdw_done;
+static fiber_t* fdw_fiber;
+static NS int g_fdw_blocked(void) { return fdw_in && sim_fiber_lib_state(fdw_fiber) == FIBER_STATE_WAITING && sim_fiber_is_saved(fdw_fiber); }
+static void* fd_closer(void* p) {
+  (void)p;
+  while (!fdw_done) {
+    if (g_fdw_blocked()) {
+      fdw_in = 0;
+      close(fdw_fd[0]);
+    }
+    RS0(fiber_yield);
+  }
+  return NULL;
+}
+static void fd_wait_once(void) {
+  unsigned char b[2];
+  if (pipe(fdw_fd)) sim_violation("SIM-pipe", "pipe failed");
+  fdw_in = 1;
+  ssize_t r = read(fdw_fd[0], b, 1); /* resumed by the helper's close() */
+  (void)r;
+  fdw_in = 0;
+  close(fdw_fd[1]);
+}
 static void* waiter(void* p) {
   const int w = (int)(intptr_t)p;
+  if (pre_fd_wait && w == 0) fd_wait_once();
   if (strict_mode) {
     int sw = g_sw();
     g_entering_wait();
@@ -213,6 +241,7 @@ void h_run(void) {
     }
   }
   int waiters_first = wl_pct(50);
+  pre_fd_wait = wl_pct(25);
   int early_join = wl_pct(50);
   sim_describe("threads=%d %s waiters=%d raisers=%d units=%d yield_r=%d preempt=1/%d", c.threads, strict_mode ? "raise_strict" : "raise", nw, nr, total, yield_r, c.preempt_inv);
   sim_fiber_mode();
@@ -224,6 +253,8 @@ void h_run(void) {
   for (int r = 0; r < nr; r++) fr[r] = fiber_create(STK, raiser, (void*)(intptr_t)r);
   if (!waiters_first)
     for (int w = 0; w < nw; w++) fw[w] = fiber_create(STK, waiter, (void*)(intptr_t)w);
+  fdw_fiber = fw[0];
+  fiber_t* closer = pre_fd_wait ? fiber_create(STK, fd_closer, NULL) : NULL;
   /* joining the waiters first lets them be reclaimed while raisers are still at work */
   /* raises can still be in progress while a waiter is reclaimed whenever waiters are joined before the raisers,
    * and always in the claim protocol, where the waiters themselves pass the signal on */
@@ -235,6 +266,8 @@ void h_run(void) {
     for (int r = 0; r < nr; r++) fiber_join(fr[r], NULL);
     for (int w = 0; w < nw; w++) fiber_join(fw[w], NULL);
   }
+  fdw_done = 1;
+  if (closer) fiber_join(closer, NULL);
   if (strict_mode && wait_returns != total) sim_violation("C20-strict-raise-count", "%d strict raises released %d waiters", total, wait_returns);
   fiber_multi_signal_destroy(&ms);
   h_fiber_end();
